@@ -52,14 +52,6 @@ func (jm *jobManager) Submit(logger *zap.Logger, name string, job func() error) 
 }
 
 func (jm *jobManager) worker() {
-	defer func() {
-		if err := recover(); err != nil {
-			buf := make([]byte, stackTraceBufferSize)
-			buf = buf[:runtime.Stack(buf, false)]
-			log.Printf("panic: certificate worker: %v\n%s", err, buf)
-		}
-	}()
-
 	for {
 		jm.mu.Lock()
 		if len(jm.queue) == 0 {
@@ -70,9 +62,20 @@ func (jm *jobManager) worker() {
 		next := jm.queue[0]
 		jm.queue = jm.queue[1:]
 		jm.mu.Unlock()
-		if err := next.job(); err != nil {
-			next.logger.Error("job failed", zap.Error(err))
-		}
+		// a panicking job must not take the worker down with it: the
+		// job's name has to be released and the rest of the queue run
+		func() {
+			defer func() {
+				if err := recover(); err != nil {
+					buf := make([]byte, stackTraceBufferSize)
+					buf = buf[:runtime.Stack(buf, false)]
+					log.Printf("panic: certificate worker: %v\n%s", err, buf)
+				}
+			}()
+			if err := next.job(); err != nil {
+				next.logger.Error("job failed", zap.Error(err))
+			}
+		}()
 		if next.name != "" {
 			jm.mu.Lock()
 			delete(jm.names, next.name)
